@@ -281,6 +281,9 @@ func searches(thorough bool) []*Search {
 	// (2) retention and deletion next to a DAG sharing the prefix / carrying the compaction suffix
 	add("retention/a+a_c", []string{"a.yaml", "a_c.yaml"}, []int{tT0, tY, tOld}, "run open update removeold removeall", []int{0, 1, 30}, d(4, 5), 4, 1)
 	add("retention/a+ab+rename", []string{"a.yaml", "ab.yaml"}, []int{tT3, tOld}, "run update rename removeold removeall", []int{0, 1, 30}, d(4, 6), 4, 0)
+	// (2b) retention against runs of several ages, some of them rewritten (Update) after their start:
+	//      the order of start times (file names) and the order of last writes (what retention looks at) disagree
+	add("retention/ages", []string{"a.yaml"}, []int{tOld2, tOld, tMid, tT0}, "run update removeold", []int{0, 7, 30}, d(4, 5), 4, 0)
 	// (3) every collision-prone pair: rename / retention / deletion across names
 	pairs := [][]string{
 		{"a.yaml", "ab.yaml"}, {"a.yaml", "a_c.yaml"}, {"a.yaml", "a.b.yaml"}, {"a.yaml", "a b.yaml"},
